@@ -21,6 +21,16 @@ pub(crate) struct BodyScanContext<'a> {
     pub function_line: usize,
 }
 
+/// Record that `name` is bound at `line` inside the function body being scanned.
+/// A name may be bound several times; the earliest binding is the one that decides
+/// from where on the name refers to the local variable.
+fn record_local_binding(local_vars: &mut HashMap<String, usize>, name: String, line: usize) {
+    local_vars
+        .entry(name)
+        .and_modify(|first| *first = (*first).min(line))
+        .or_insert(line);
+}
+
 impl FixtureDatabase {
     /// Scan a function body for undeclared fixture usages.
     /// An undeclared fixture is a reference to a fixture that exists in the database
@@ -79,7 +89,7 @@ impl FixtureDatabase {
                         self.collect_names_from_expr(target, &mut temp_names);
                     }
                     for name in temp_names {
-                        local_vars.insert(name, line);
+                        record_local_binding(local_vars, name, line);
                     }
                 }
                 Stmt::AnnAssign(ann_assign) => {
@@ -88,7 +98,7 @@ impl FixtureDatabase {
                     let mut temp_names = HashSet::new();
                     self.collect_names_from_expr(&ann_assign.target, &mut temp_names);
                     for name in temp_names {
-                        local_vars.insert(name, line);
+                        record_local_binding(local_vars, name, line);
                     }
                 }
                 Stmt::AugAssign(aug_assign) => {
@@ -97,7 +107,7 @@ impl FixtureDatabase {
                     let mut temp_names = HashSet::new();
                     self.collect_names_from_expr(&aug_assign.target, &mut temp_names);
                     for name in temp_names {
-                        local_vars.insert(name, line);
+                        record_local_binding(local_vars, name, line);
                     }
                 }
                 Stmt::For(for_stmt) => {
@@ -106,7 +116,7 @@ impl FixtureDatabase {
                     let mut temp_names = HashSet::new();
                     self.collect_names_from_expr(&for_stmt.target, &mut temp_names);
                     for name in temp_names {
-                        local_vars.insert(name, line);
+                        record_local_binding(local_vars, name, line);
                     }
                     self.collect_local_variables(&for_stmt.body, line_index, local_vars);
                 }
@@ -116,7 +126,7 @@ impl FixtureDatabase {
                     let mut temp_names = HashSet::new();
                     self.collect_names_from_expr(&for_stmt.target, &mut temp_names);
                     for name in temp_names {
-                        local_vars.insert(name, line);
+                        record_local_binding(local_vars, name, line);
                     }
                     self.collect_local_variables(&for_stmt.body, line_index, local_vars);
                 }
@@ -135,7 +145,7 @@ impl FixtureDatabase {
                             let mut temp_names = HashSet::new();
                             self.collect_names_from_expr(optional_vars, &mut temp_names);
                             for name in temp_names {
-                                local_vars.insert(name, line);
+                                record_local_binding(local_vars, name, line);
                             }
                         }
                     }
@@ -149,7 +159,7 @@ impl FixtureDatabase {
                             let mut temp_names = HashSet::new();
                             self.collect_names_from_expr(optional_vars, &mut temp_names);
                             for name in temp_names {
-                                local_vars.insert(name, line);
+                                record_local_binding(local_vars, name, line);
                             }
                         }
                     }
